@@ -144,7 +144,8 @@ PrepVerdict(f0, rl, st, f, outsideChanged, tmpLeft) ==
   LET w10 == (IF st = "ok" THEN { <<"unsanitary", CatS(p)>> : p \in Unsanitary(f, Final) } ELSE {})
              \cup (IF st = "ok" THEN { <<"excluded-file-kept", CatS(r)>> : r \in { x \in KeptFiles(f, Final) : PkgExcluded(rl, x, FALSE) } } ELSE {})
              \cup (IF st = "ok" THEN { <<"excluded-empty-directory-kept", CatS(r)>> : r \in { x \in KeptDirs(f, Final) : PkgExcluded(rl, x, TRUE) /\ KidNames(f, Final \o x) = {} } } ELSE {})
-             \cup (IF st = "ok" /\ MustFail(f0, rl) THEN { <<"build-should-have-failed", "">> } ELSE {})
+             \* a package that must be rejected is rejected by an error that is returned: neither accepted nor a build that never returns
+             \cup (IF st # "fail" /\ MustFail(f0, rl) THEN { <<"build-should-have-failed", st>> } ELSE {})
              \cup (IF tmpLeft /\ st = "ok" THEN { <<"temporary-directory-left", "">> } ELSE {})
              \cup { <<"outside-touched", q>> : q \in outsideChanged }
       \* C03, bundle half: a file whose own path is not excluded is kept (when the package is accepted at all)
@@ -152,5 +153,5 @@ PrepVerdict(f0, rl, st, f, outsideChanged, tmpLeft) ==
                                \cup { <<"kept-although-excluded", CatS(r)>> : r \in { x \in KeptFiles(f, Final) : PkgExcluded(rl, x, FALSE) } }
              ELSE IF st = "fail" /\ ~MustFail(f0, rl) /\ HashableL0(f0, rl) /\ NoLinks(f0) THEN { <<"package-rejected-because-of-its-rules", "">> } ELSE {}
   IN [c10 |-> w10 = {}, w10 |-> { d[1] \o ":" \o d[2] : d \in w10 }, c03 |-> w03 = {}, w03 |-> { d[1] \o ":" \o d[2] : d \in w03 },
-      c19 |-> st # "panic", w19 |-> IF st = "panic" THEN {"panic"} ELSE {}]
+      c19 |-> st \notin {"panic", "hang"}, w19 |-> IF st \in {"panic", "hang"} THEN {st} ELSE {}]
 =============================================================================
